@@ -306,7 +306,7 @@ End Oracle.
 
 Definition untouched (o : op) : list oev :=
   match o with
-  | OpHeader d _ es => [SHeader d es]
+  | OpHeader d hs es => [SHeader d hs es]
   | OpData d b es => [SData d b es]
   end.
 
